@@ -210,7 +210,10 @@ let cmd_mrun args =
      | Err es -> emit ("init err " ^ errs_str es)
      | Ok s0 ->
        let s0 = List.fold_left inject { s0 with mem = mem_of_atom mem0 } injects in
-       let fuel = nat_of_int (int_of_string timeout + 1) in
+       (* fuel = the cycle budget (C06_terminates: that always suffices), capped so that a huge
+          budget is not materialised as a unary number: a run that needs more than the cap ends
+          in the explicit OutOfFuel error, which the comparison reports *)
+       let fuel = nat_of_int (min (int_of_string timeout) 300000 + 1) in
        (match run fuel f o p s0 with
         | Ok (s, text) ->
           emit "run ok";
